@@ -89,7 +89,8 @@ class Policy:
 
 class Baton:
     def __init__(self, sched_spec=None, schedule=None, step_cap=2000000,
-                 tracer_files=None, on_switch=None, write_lines=None):
+                 tracer_files=None, on_switch=None, write_lines=None,
+                 thread_name=None):
         self.tasks = []
         self.schedule_in = None if schedule is None else [
             list(s) for s in schedule]
@@ -112,6 +113,7 @@ class Baton:
         self.wcount = 0
         self.wsite = {}
         self.lock_yields = 0
+        self.thread_name = thread_name
 
     # -- task management -------------------------------------------------
     def add(self, fn):
@@ -291,7 +293,8 @@ class Baton:
     def run(self):
         for t in self.tasks:
             t.thread = threading.Thread(target=self._body, args=(t,),
-                                        name='sim-task-%d' % t.tid,
+                                        name=self.thread_name or
+                                        'sim-task-%d' % t.tid,
                                         daemon=True)
             t.thread.start()
         self._dispatch(None)
@@ -317,7 +320,16 @@ class Baton:
 MUTATORS = frozenset(['append', 'add', 'update', 'pop', 'setdefault', 'insert',
                       'extend', 'discard', 'clear', 'remove', 'popleft',
                       'appendleft', 'register_function', 'delete_function',
-                      'sort', 'reverse', 'rotate'])
+                      'sort', 'reverse', 'rotate',
+                      # process-wide settings of the interpreter / C library
+                      'tzset', 'seed', 'setlocale', 'setrecursionlimit',
+                      'setswitchinterval', 'putenv', 'unsetenv', 'chdir',
+                      'umask', 'setdefaulttimeout', 'setprofile', 'settrace',
+                      'setcontext', 'truncate', 'write', 'seek'])
+
+
+def _is_mutator(attr):
+    return attr in MUTATORS or attr.startswith('set_')
 
 
 GLOBAL_SITES = set()    # sites that touch a name declared `global`
@@ -376,7 +388,7 @@ def find_write_lines(root):
                                     hit = True
                     elif isinstance(n, ast.Expr) and isinstance(n.value, ast.Call):
                         f = n.value.func
-                        if isinstance(f, ast.Attribute) and f.attr in MUTATORS:
+                        if isinstance(f, ast.Attribute) and _is_mutator(f.attr):
                             hit = True
                     if hit:
                         out.add((path, getattr(n, 'end_lineno', n.lineno)))
